@@ -73,11 +73,32 @@ def describe(sc):
 
 
 def check_records(out, wd, recs, owners, scens, label, pid_hint):
-    rf = os.path.join(wd, "recs_%s.ndjson" % label)
-    common.write_ndjson(rf, recs)
-    r = run_tlc("CheckConstraints", "CheckConstraints.cfg", env={"QV_RECS": rf}, cont=True, timeout=3000, name="checkcons_" + label)
-    out.add("states", r.distinct)
-    out.add("transitions", r.generated)
+    # one TLC run per ~10 MB of records, whole scenarios together (TLC keeps the deserialised file in memory and crawls beyond)
+    chunks, cur, size = [], [], 0
+    for q, rc in enumerate(recs):
+        if cur and size > 10_000_000 and owners[q] != owners[q - 1]:
+            chunks.append(cur)
+            cur, size = [], 0
+        cur.append(q)
+        size += len(json.dumps(rc))
+    if cur or not chunks:
+        chunks.append(cur)
+    viol, violated_names, tail = [], [], ""
+    for ci, chunk in enumerate(chunks):
+        rf = os.path.join(wd, "recs_%s_%d.ndjson" % (label, ci))
+        common.write_ndjson(rf, [recs[q] for q in chunk])
+        rr = run_tlc("CheckConstraints", "CheckConstraints.cfg", env={"QV_RECS": rf}, cont=True, timeout=3000, name="checkcons_" + label)
+        os.remove(rf)
+        out.add("states", rr.distinct)
+        out.add("transitions", rr.generated)
+        viol += [(None, v[1], chunk[int(v[2]) - 1] + 1) for v in rr.viol_lines]
+        if rr.violated and not rr.viol_lines:
+            violated_names, tail = rr.violated, rr.stdout[-1500:]
+
+    class _R:
+        pass
+    r = _R()
+    r.viol_lines, r.violated, r.stdout = viol, violated_names, tail
     out.add("traces_validated_against_impl", len(recs))
     seen = set()
     for v in r.viol_lines:
@@ -114,6 +135,10 @@ def run_generic(tier, out, spin, design_cfgs, tag, replay=None):
         from . import pure
         polys, udesc = pure.universe("2f" if thorough else "2s", wd)
         polys3, udesc3 = pure.universe("3" if thorough else "3q", wd)      # three labels: product terms sharing a variable
+        if thorough:
+            step = 6 if spin else 3
+            polys3 = polys3[out.seed % step::step]        # a third (spin: a sixth) of the 6 561 (which: by seed)
+            udesc3 = dict(udesc3, used="every %d-th polynomial, offset seed mod %d" % (step, step))
         ex = exhaustive_scenarios(polys, spin) + exhaustive_scenarios(polys3, spin)
         out.set("exhaustive_universe", udesc)
         out.set("exhaustive_universe_3_labels", udesc3)
